@@ -98,3 +98,10 @@ def load_all(verif_root=None):
                 if c.source_file is None:
                     c.source_file = 'contracts/' + fn
     _loaded = True
+
+
+def export_spec(*fns):
+    """make specification functions visible to contract expressions"""
+    for f in fns:
+        SPEC_GLOBALS[f.__name__] = f
+    return fns[0] if fns else None
